@@ -177,9 +177,57 @@ def case(seq, op, N, live):
     return h
 
 
+def equal_block_case(seq, via):
+    """The file holds a REAL events block; the forbidden request assigns a block of equal
+    content (no decoder recorders: block equality is the library's own)."""
+    def h(I):
+        def P(label, cond, note=""):
+            return I.prove(f"C08.{label}", cond, note)
+        from . import e2e
+        fs = I.fs()
+        Tdf = I.mod("basictdf").Tdf
+        spec = {"n": 3, "version": 1, "hdates": [0, 0, 0], "slots": [{"type": 0, "format": 0, "size": 0, "dates": [0, 0, 0], "comment": "x"} for _ in range(3)]}
+        fs.create("f.tdf", spec)
+        with Tdf(fs.path("f.tdf")).allow_write() as t:
+            t.add_block(e2e.real_block(I, "events", "a"), "c")
+        pre = fs.obs("f.tdf")
+        tdf = Tdf(fs.path("f.tdf"))
+        drive(tdf, seq)
+        inside, writable = expected_mode(seq)
+        same = e2e.real_block(I, "events", "a")  # identical content, another object
+        try:
+            if via == "replace":
+                tdf.replace_block(same, "c")
+            elif via == "replace_nocomment":
+                tdf.replace_block(same)
+            else:
+                tdf.events = same
+            exc = None
+        except Exception as e:  # noqa: BLE001
+            exc = e
+        I.observe("exc", type(exc).__name__ if exc else None)
+        after = fs.obs("f.tdf")
+        if writable:
+            I.goal("allowed")
+            P("mutation_inside_write_context_accepted", exc is None, f"{via}: {type(exc).__name__ if exc else ''}")
+        else:
+            I.goal("forbidden")
+            P("mutation_outside_write_context_raises", exc is not None, f"{via} with a block equal to the stored one, after {''.join(seq) or 'nothing'}")
+            P("file_length_unchanged.by_forbidden_mutation", after.length == pre.length)
+            P("bytes_unchanged.by_forbidden_mutation", after.range(0, 64 + 288 * 3) == pre.range(0, 64 + 288 * 3))
+        if inside:
+            tdf.__exit__(None, None, None)
+        P("all_handles_closed_after_exit", fs.open_handles() == 0)
+    return h
+
+
 def instances(tier):
     q = tier == "quick"
     out = []
+    for seq in [(), ("E",), ("A",), ("A", "E"), ("A", "E", "X"), ("A", "E", "X", "E"), ("E", "X", "A"), ("A", "E", "R", "E")]:
+        for via in ("replace", "replace_nocomment", "setter"):
+            inside, writable = expected_mode(seq)
+            out.append(Instance(f"equal_block.{''.join(seq) or 'fresh'}.{via}", equal_block_case(seq, via), goals=["allowed" if writable else "forbidden"], cost=20))
     seqs = sequences(4 if q else 5)
     shapes = [(2, (16,))] + ([] if q else [(3, (16, 5))])
     for N, live in shapes:
